@@ -63,6 +63,7 @@ def genHandlers : List Handler := [
   Mir.Gen.Validators.handler,
   Mir.PyV.handler,
   Mir.Gen.Alignment.handler,
+  Mir.Gen.EvalGlue.handler,
   Mir.PyAl.handler
 ]
 
